@@ -39,6 +39,37 @@ Theorem C04_nav_reaches :
 Proof. exact nav_reaches. Qed.
 Print Assumptions C04_nav_reaches.
 
+(* The property has no "mode changed only by the driver's own navigation" proviso (C03 has one): the
+   level the device is in may differ from the level the driver REMEMBERS, because a line the user sent
+   through send_command / send_configs moved the device.  Same hypotheses, any remembered level (or
+   DUMMY), the prompt of the level the device is in matched by that level only: same conclusion. *)
+Theorem C04_nav_reaches_stale_belief :
+  forall (N factor : nat) (stop : bool) (parent : nat -> option nat) (auth : nat -> bool)
+         (nbrs matches : nat -> list nat) (D : Type) (dmode : D -> nat) (dline : D -> line -> D * reply)
+         (depth : nat -> nat) (root : nat),
+    (forall n p : nat, parent n = Some p -> depth n = S (depth p)) ->
+    (forall a b : nat, In b (nbrs a) <-> parent a = Some b \/ parent b = Some a) ->
+    (forall x : nat, valid parent depth root x -> depth x < N) ->
+    1 <= factor ->
+    (forall x : nat, valid parent depth root x -> x < N) ->
+    (forall m : nat, valid parent depth root m -> In m (matches m)) ->
+    (forall m c : nat, parent c = Some m -> matches m = [m]) ->
+    forall Inv : D -> Prop,
+    (forall d : D, Inv d -> exists d' : D, dline d LRet = (d', RPrompt) /\ dmode d' = dmode d /\ Inv d') ->
+    (forall (d : D) (p : nat), Inv d -> parent (dmode d) = Some p ->
+       exists d' : D, deescalate D dline (dmode d) d = (d', None) /\ dmode d' = p /\ Inv d') ->
+    (forall (d : D) (x : nat), Inv d -> parent x = Some (dmode d) ->
+       exists d' : D, escalate stop parent auth matches D dmode dline x d = (d', None) /\ dmode d' = x /\ Inv d') ->
+    forall (belief : option nat) (src dst : nat) (d : D),
+      valid parent depth root src -> valid parent depth root dst -> dst < N -> Inv d -> dmode d = src ->
+      matches src = [src] ->
+      exists d' : D,
+        acquire N factor stop parent auth nbrs matches D dmode dline belief dst d =
+          (Reached, Some dst, d', route parent depth (2 * N) src dst) /\
+        dmode d' = dst /\ length (route parent depth (2 * N) src dst) + 1 <= N.
+Proof. exact nav_reaches_stale_belief. Qed.
+Print Assumptions C04_nav_reaches_stale_belief.
+
 (* The same for every concrete table that passes the boolean checks evaluated below on the generated
    tables (is_tree, order_ok on the observed set order, cls_ok), levels = indices into the table. *)
 Theorem C04_nav_reaches_table :
@@ -148,6 +179,15 @@ Theorem C04_core_platforms_partial :
   forallb (all_ok true gen_factor gen_stop) gen_platforms = true.
 Proof. vm_compute. reflexivity. Qed.
 Print Assumptions C04_core_platforms_partial.
+
+(* every generated table, byte-level simulated device, 5 secondary-password situations: from every level
+   whose prompt is matched by that level only, with EVERY remembered level (and DUMMY), acquire_priv(dst)
+   gives exactly the outcome / belief / device mode / device log / hidden lines / transitions it gives
+   when it remembers the right level (which C04_core_platforms_partial pins to the route) *)
+Theorem C04_core_platforms_stale_belief :
+  forallb (stale_ok gen_factor gen_stop) gen_platforms = true.
+Proof. vm_compute. reflexivity. Qed.
+Print Assumptions C04_core_platforms_stale_belief.
 
 (* the premises of C04_nav_reaches_table that are about the source: the loop-bound factor; every
    generated table is a tree, with the observed set order and the 'identical pattern text'
